@@ -47,7 +47,7 @@ ERR = {"": "EOk", "invalid_name": "EInvalidName", "dup_in_request": "EDupInReque
        "counter_overflow": "ECounterOverflow", "ts_invalid": "ETsInvalid", "ts_exists": "ETsExists",
        "index_not_found": "EIndexNotFound", "not_an_index": "ENotAnIndex",
        "index_has_dependants": "EIndexHasDependants", "internal": "EInternal", "len_mismatch": "ELenMismatch",
-       "not_found": "ENotFound", "fs_rename": "EFsRename", "other": "EUnreachable"}
+       "not_found": "ENotFound", "fs_rename": "EFsRename", "other": "EUnreachable", "fault": "EFault"}
 FREE = 4095
 MAXL = 1048575
 
@@ -305,6 +305,50 @@ def gen_case(rng):
                         "chans": [_spec(fn, FREE, "float64", False, 0, "", True)], "retrieve": False, "over": False})
             sh.live[fn] = (FREE, "free")
             continue
+        y = rng.random()
+        if y < 0.07:
+            # two create requests in overlapping transactions on one node, committed in reverse order; the
+            # node's channel service is restarted over the same DB and engines; one more create
+            def leased_new(pre):
+                nm = sh.fresh(rng, pre)
+                if rng.random() < 0.5:
+                    sh.idx[nm] = gw
+                    sh.live[nm] = (gw, "index")
+                    return _spec(nm, rng.choice([0, gw]), "timestamp", True)
+                sh.live[nm] = (gw, "virtual")
+                return _spec(nm, rng.choice([0, gw]), rng.choice(["float64", "string"]), False, 0, "", True)
+            a = [leased_new("pa") for _ in range(rng.choice([1, 1, 2]))]
+            b = [leased_new("pb") for _ in range(rng.choice([1, 1, 2]))]
+            ops.append({"op": "create_pair", "gw": gw, "chans": a, "chans_b": b})
+            if rng.random() < 0.85:
+                ops.append({"op": "restart", "gw": gw})
+            ops.append({"op": "create", "gw": rng.choice([gw, gw, rng.choice(nodes)]), "chans": [leased_new("pc")],
+                        "retrieve": False, "over": False})
+            continue
+        if y < 0.17:
+            # node fn's engine fails the next meta.json persist, once; a request that runs entirely on fn is
+            # issued through any node: it must fail and change neither the metadata nor any engine
+            fnode = rng.choice(nodes)
+            mine = [nn for nn, (l, kd) in sh.live.items() if l == fnode and kd in ("index", "data", "var", "virtual")]
+            if mine and rng.random() < 0.6:
+                rng.shuffle(mine)
+                by = mine[:rng.choice([1, 1, 2])]
+                ops.append({"op": "frename", "gw": gw, "fault": fnode, "by": by, "dead": [-1] * len(by),
+                            "keys": [0] * len(by), "names": [sh.fresh(rng, "fr") for _ in by]})
+            else:
+                chans = []
+                for _ in range(rng.choice([1, 1, 2])):
+                    nm = sh.fresh(rng, "fc")
+                    same = [n for n, l in sh.idx.items() if l == fnode and n in sh.live]
+                    k = rng.random()
+                    if k < 0.4:
+                        chans.append(_spec(nm, fnode, "timestamp", True))
+                    elif k < 0.7 or not same:
+                        chans.append(_spec(nm, fnode, "float64", False, 0, "", True))
+                    else:
+                        chans.append(_spec(nm, fnode, "float64", False, 0, rng.choice(same)))
+                ops.append({"op": "fcreate", "gw": gw, "fault": fnode, "chans": chans})
+            continue
         if x < 0.5 or not sh.live:
             ops += gen_create(rng, sh, nodes, gw)
         elif x < 0.64:
@@ -515,6 +559,22 @@ def c_op(o, st):
         lks = st.get("lkeys") or [0] * len(o["chans"])
         return "(Create %s %s %s %s)" % (cN(o["gw"]), clist([c_spec(s, i, k) for s, i, k in zip(o["chans"], idx, lks)]),
                                          cbool(o.get("retrieve", False)), cbool(o.get("over", False)))
+    if k == "create_pair":
+        na = len(o["chans"])
+        n = na + len(o["chans_b"])
+        idx = st.get("idx") or [0] * n
+        lks = st.get("lkeys") or [0] * n
+        sa = [c_spec(s, i, k) for s, i, k in zip(o["chans"], idx[:na], lks[:na])]
+        sb = [c_spec(s, i, k) for s, i, k in zip(o["chans_b"], idx[na:], lks[na:])]
+        return "(CreatePair %s %s %s)" % (cN(o["gw"]), clist(sa), clist(sb))
+    if k == "fcreate":
+        idx = st.get("idx") or [0] * len(o["chans"])
+        lks = st.get("lkeys") or [0] * len(o["chans"])
+        return "(FaultedCreate %s %s %s)" % (cN(o["fault"]), cN(o["gw"]),
+                                             clist([c_spec(s, i, k) for s, i, k in zip(o["chans"], idx, lks)]))
+    if k == "frename":
+        return "(FaultedRename %s %s %s %s)" % (cN(o["fault"]), cN(o["gw"]), clist([cN(x) for x in st.get("keys") or []]),
+                                                clist([cstr(x) for x in o["names"]]))
     if k == "rename":
         return "(Rename %s %s %s)" % (cN(o["gw"]), clist([cN(x) for x in st.get("keys") or []]),
                                       clist([cstr(x) for x in o["names"]]))
@@ -597,7 +657,7 @@ def nontrivial(case, r):
         if st["err"]:
             failing = True
             continue
-        if o["op"] == "create" and st.get("ret"):
+        if o["op"] in ("create", "create_pair") and st.get("ret"):
             for c in st["ret"]:
                 ok_creates.add((o["gw"], c["lease"]))
         if o["op"] in ("delete", "rename", "delete_by_name"):
@@ -614,6 +674,10 @@ def histogram(case, r):
     for o, st in zip(case["ops"], r.get("steps") or []):
         ks.append("op=%s" % o["op"])
         ks.append("err=%s" % (st["err"] or "ok"))
+        if o["op"] in ("fcreate", "frename"):
+            ks.append("fault=%s/%s" % (o["op"], "fired" if st.get("fired") else "not_consumed"))
+            if o["fault"] != o["gw"]:
+                ks.append("fault_remote")
         if o["op"] == "create":
             if o.get("retrieve"):
                 ks.append("opt=retrieve")
